@@ -1486,7 +1486,10 @@ func c13RegistrationOrder(r *Run, pkg *packages.Package, apply *ast.FuncDecl) {
 									ok = true
 								}
 							}
-						} else if rhs != nil && (exprStr(rhs) == "nil" || isListField(rhs) != nil) {
+						} else if rhs != nil && exprStr(rhs) == "nil" {
+							ok = true
+						} else if rhs != nil && isListField(rhs) != nil && vd.bad == token.NoPos {
+							vd.bad, vd.msg = x.Pos(), "is assigned another object's list as it is (no copy): the two share one backing array, so an append on one overwrites what the other registered"
 							ok = true
 						}
 						if !ok && vd.bad == token.NoPos {
@@ -1501,6 +1504,26 @@ func c13RegistrationOrder(r *Run, pkg *packages.Package, apply *ast.FuncDecl) {
 								vd.bad, vd.msg = x.Pos(), "has an element stored at a computed position"
 							}
 						}
+					}
+				}
+			case *ast.CompositeLit:
+				// Group{middlewares: parent.middlewares}: a new object must get a copy of the list
+				for _, el := range x.Elts {
+					kv, ok := el.(*ast.KeyValueExpr)
+					if !ok {
+						continue
+					}
+					kid, ok := kv.Key.(*ast.Ident)
+					if !ok {
+						continue
+					}
+					fv, _ := info.Uses[kid].(*types.Var)
+					if fv == nil || !fv.IsField() || !types.Identical(fv.Type(), listT) {
+						continue
+					}
+					vd := get(fv, kv.Pos())
+					if isListField(kv.Value) != nil && vd.bad == token.NoPos {
+						vd.bad, vd.msg = kv.Pos(), "of a new object is initialised with another object's list as it is (no copy): the two share one backing array, so an append on one overwrites what the other registered"
 					}
 				}
 			case *ast.CallExpr:
